@@ -8,6 +8,7 @@ import (
 	"fmt"
 	"math/rand"
 	"sort"
+	"strings"
 )
 
 func init() {
@@ -32,6 +33,9 @@ func init() {
 	families["huge"] = genHuge
 	families["iter_share"] = genIterShare
 	families["merge_chain"] = genMergeChain
+	families["copy_boundary"] = genCopyBoundary
+	families["proc_history"] = genProcHistory
+	families["big_stored"] = genBigStored
 	families["big_freq"] = genBigFreq
 	families["giant_posting"] = genGiantPosting
 	families["pool_vocab"] = genPoolVocab
@@ -756,8 +760,18 @@ func genDictRanges(r *rand.Rand, i int) Scenario {
 			// Close() of one dictionary object: later lookups of the same field (fresh and kept objects) go on
 			sc.Ops = append(sc.Ops, Op{Op: "dict_close", Seg: seg, Field: f, ReuseD: r.Intn(2) == 0})
 		}
-		sc.Ops = append(sc.Ops, Op{Op: "contains", Seg: seg, Field: f, Term: B(keysV[r.Intn(len(keysV))])})
-		o := Op{Op: "pl_open", Seg: seg, Field: f, Term: B(keysV[r.Intn(len(keysV))]), Pl: 50 + k}
+		// Contains and the following PostingsList go to the same Dictionary object in half of the rounds, with keys of
+		// equal length in the caller's reused buffer
+		same := r.Intn(2) == 0
+		t1 := keysV[r.Intn(len(keysV))]
+		t2 := keysV[r.Intn(len(keysV))]
+		if same && r.Intn(2) == 0 {
+			for tries := 0; tries < 8 && len(t2) != len(t1); tries++ {
+				t2 = keysV[r.Intn(len(keysV))]
+			}
+		}
+		sc.Ops = append(sc.Ops, Op{Op: "contains", Seg: seg, Field: f, Term: B(t1), ReuseD: same})
+		o := Op{Op: "pl_open", Seg: seg, Field: f, Term: B(t2), Pl: 50 + k, ReuseD: same}
 		if k > 0 && r.Intn(2) == 0 {
 			o.Prealloc = 50 + r.Intn(k) // an earlier list (the handle follows the object)
 		}
@@ -840,6 +854,14 @@ func genMatch(r *rand.Rand, i int) Scenario {
 			sc.Ops = append(sc.Ops, Op{Op: "dict", Seg: sg, Field: pairs[0].Field}, Op{Op: "dict_close", Seg: sg, Field: pairs[0].Field, ReuseD: r.Intn(2) == 0})
 		}
 		sc.Ops = append(sc.Ops, Op{Op: "match", Seg: 1 + r.Intn(4), Pairs: pairs})
+	}
+	// a known field, then the same unknown field twice - the second time with a term that exists in the known field
+	for k := 0; k < 3 && len(fnames) > 0; k++ {
+		f := fnames[r.Intn(len(fnames))]
+		ts := byField[f]
+		t1, t2 := ts[r.Intn(len(ts))], ts[r.Intn(len(ts))]
+		unk := []string{"nosuchfield", "zzz_unknown"}[r.Intn(2)]
+		sc.Ops = append(sc.Ops, Op{Op: "match", Seg: 1 + r.Intn(4), Pairs: []Pair{t1, {unk, B([]byte("qq"))}, {unk, t2.Term}, {unk, t1.Term}}})
 	}
 	// field names that are prefixes of one another, with terms chosen so that field+term spell the same bytes:
 	// (P, S+T) and (P+S, T) are different pairs
@@ -1027,6 +1049,12 @@ func genXver(r *rand.Rand, i int) Scenario {
 		b1[d] = append(b1[d], FieldInst{Name: "blob", Len: 0, Stored: true, Value: B(blob), Terms: []TermOcc{}})
 		sc.Universe = append(sc.Universe, "blob")
 	}
+	if len(b1) > 0 && i%3 != 2 {
+		// a field without a single term (stored only): its dictionary is empty in the file
+		d := r.Intn(len(b1))
+		b1[d] = append(b1[d], FieldInst{Name: "sonly", Len: 0, Stored: true, Value: B([]byte("kept")), Terms: []TermOcc{}})
+		sc.Universe = append(sc.Universe, "sonly")
+	}
 	sc.Batches = []Batch{b1, b2}
 	mode := pickMode(r)
 	d1, d2 := randDrops(r, len(b1)), randDrops(r, len(b2))
@@ -1045,6 +1073,11 @@ func genXver(r *rand.Rand, i int) Scenario {
 		Op{Op: "persist", Seg: 1, File: 1}, Op{Op: "load", File: 1, Seg: 3, Backing: []string{"mem", "file"}[r.Intn(2)], Impl: rd},
 		Op{Op: "observe", Seg: 3, Level: "full", NoCount: rd == "ref"},
 		Op{Op: "layout", File: 1})
+	if rd == "cur" && len(b1) > 0 {
+		// a file written by the other implementation as the input of this implementation's merger
+		sc.Ops = append(sc.Ops, Op{Op: "merge", File: 5, In: []int{3}, Drops: []DropSpec{{Kind: "nil"}}, Mode: pickMode(r), Buf: 64, Impl: "cur"},
+			Op{Op: "load", File: 5, Seg: 5, Backing: "mem", Impl: "cur"}, Op{Op: "observe", Seg: 5, Level: "full", NoStats: true})
+	}
 	if w == "cur" || survivors > 0 {
 		sc.Ops = append(sc.Ops,
 			Op{Op: "merge", File: 2, In: []int{1, 2}, Drops: []DropSpec{d1, d2}, Mode: pickMode(r), Buf: 64, Impl: w},
@@ -1505,6 +1538,39 @@ func genDictInterleave(r *rand.Rand, i int) Scenario {
 	sc.Ops = append(sc.Ops, Op{Op: "build", Seg: 1, Batch: 0, Mode: pickMode(r)},
 		Op{Op: "merge", File: 1, In: []int{1}, Drops: []DropSpec{{Kind: "nil"}}, Mode: pickMode(r), Buf: 64}, Op{Op: "load", File: 1, Seg: 2, Backing: "mem"})
 	keysV := [][]byte{[]byte("w"), []byte("x"), []byte("xy"), []byte("y"), []byte("z"), {0}, []byte("d1")}
+	// bounded scans (both bounds given) opened, advanced and finished in every order: a scan that ends while others
+	// are under way, then a new bounded scan, then the old ones continue
+	for round := 0; round < 2; round++ {
+		seg := 1 + r.Intn(2)
+		f := cfg.Fields[r.Intn(len(cfg.Fields))]
+		open := []int{}
+		nextR := 100*(round+1) + 50
+		for act := 0; act < 26; act++ {
+			if len(open) == 0 || (len(open) < 4 && r.Intn(4) == 0) {
+				a, b := r.Intn(len(keysV)), r.Intn(len(keysV))
+				ka, kb := keysV[a], keysV[b]
+				if string(ka) > string(kb) {
+					ka, kb = kb, ka
+				}
+				o := Op{Op: "dit_open", Seg: seg, Field: f, R: nextR, ReuseD: true}
+				if r.Intn(4) != 0 && len(ka) > 0 && len(kb) > 0 {
+					o.Lo, o.Hi = &Bound{Kind: "key", Key: B(ka)}, &Bound{Kind: "key", Key: B(kb)}
+				} else if r.Intn(2) == 0 && len(ka) > 0 {
+					o.Lo = &Bound{Kind: "key", Key: B(ka)}
+				}
+				sc.Ops = append(sc.Ops, o)
+				open = append(open, nextR)
+				nextR++
+				continue
+			}
+			sc.Ops = append(sc.Ops, Op{Op: "dit_next", R: open[r.Intn(len(open))]})
+		}
+		for _, h := range open {
+			for s := 0; s < 8; s++ {
+				sc.Ops = append(sc.Ops, Op{Op: "dit_next", R: h})
+			}
+		}
+	}
 	for round := 0; round < 3; round++ {
 		seg := 1 + r.Intn(2)
 		f := cfg.Fields[r.Intn(len(cfg.Fields))]
@@ -2249,5 +2315,117 @@ func genBigFreq(r *rand.Rand, i int) Scenario {
 		Op{Op: "stats_merge", Seg: 3, Seg2: 4, Field: "a"},
 		Op{Op: "pl_open", Seg: 4, Field: "a", Term: B([]byte("t")), Pl: 10}, Op{Op: "it_open", Pl: 10, It: 20, Freq: true, Norm: true, Locs: true},
 		Op{Op: "it_next", It: 20}, Op{Op: "it_next", It: 20}, Op{Op: "it_adv", It: 20, D: n1})
+	return sc
+}
+
+// big_stored: one 128-document stored block whose records add up to several megabytes (six or seven 1 MiB values,
+// each a run of its own byte value) followed by ordinary documents: blocks are still found by document number / 128
+// on the built, the loaded and both kinds of merged segment (C04, C06)
+func genBigStored(r *rand.Rand, i int) Scenario {
+	nbig := 5 + r.Intn(4)
+	n := nbig + 3 + r.Intn(140)
+	b := make(Batch, n)
+	for d := 0; d < n; d++ {
+		id := []byte(fmt.Sprintf("g%03d", d))
+		doc := Doc{{Name: "_id", Len: 1, Stored: true, Value: B(id), Terms: []TermOcc{{Term: B(id), Freq: 1, Locs: []Loc{}}}}}
+		if d < nbig {
+			big := make([]byte, 1<<20+d*1000)
+			for k := range big {
+				big[k] = byte('a' + d)
+			}
+			doc = append(doc, FieldInst{Name: "body", Len: 1, Stored: true, Value: B(big), Terms: []TermOcc{{Term: B([]byte("x")), Freq: 1, Locs: []Loc{}}}})
+		} else {
+			doc = append(doc, FieldInst{Name: "body", Len: 1, Stored: true, Value: B([]byte(fmt.Sprintf("small-%d", d))), Terms: []TermOcc{{Term: B([]byte("y")), Freq: 1, Locs: []Loc{}}}})
+		}
+		b[d] = doc
+	}
+	sc := Scenario{Name: fmt.Sprintf("big_stored-%d", i), NormKind: "code", Universe: []string{"_id", "body"}, Batches: []Batch{b}, Tags: []string{"big_stored"}}
+	sc.Ops = append(sc.Ops, Op{Op: "build", Seg: 1, Batch: 0, Mode: 0}, Op{Op: "persist", Seg: 1, File: 1},
+		Op{Op: "load", File: 1, Seg: 2, Backing: []string{"mem", "file"}[i%2]},
+		Op{Op: "merge", File: 2, In: []int{1}, Drops: []DropSpec{{Kind: "nil"}}, Mode: 0, Buf: 4096}, Op{Op: "load", File: 2, Seg: 3, Backing: "mem"},
+		Op{Op: "merge", File: 3, In: []int{2}, Drops: []DropSpec{{Kind: "set", Docs: []int{1}}}, Mode: 0, Buf: 4096}, Op{Op: "load", File: 3, Seg: 4, Backing: "mem"},
+		Op{Op: "layout", File: 1})
+	for _, seg := range []int{1, 2, 3, 4} {
+		for _, d := range []int{0, nbig - 1, nbig, nbig + 1, n - 2, n - 1, 3, 127, 128} {
+			if d >= 0 && d < n+1 {
+				sc.Ops = append(sc.Ops, Op{Op: "stored", Seg: seg, N: d})
+			}
+		}
+	}
+	return sc
+}
+
+// proc_history: the same batch built in fresh processes whose first build differs - nothing, a tiny batch, a large
+// compressible batch, the batch itself - and in this process; all bytes must agree: New's output depends on nothing
+// a process has done before, pooled or global (C14)
+func genProcHistory(r *rand.Rand, i int) Scenario {
+	mk := func(n int, big bool) Batch {
+		b := make(Batch, n)
+		for d := 0; d < n; d++ {
+			id := []byte(fmt.Sprintf("p%04d", d))
+			val := []byte("v")
+			if big {
+				val = []byte(strings.Repeat(fmt.Sprintf("compressible text %d ", d%7), 40))
+			}
+			b[d] = Doc{{Name: "_id", Len: 1, Stored: true, Value: B(id), Terms: []TermOcc{{Term: B(id), Freq: 1, Locs: []Loc{}}}},
+				{Name: "body", Len: 2, Stored: true, DV: d%2 == 0, Value: B(val), Terms: []TermOcc{{Term: B([]byte("common")), Freq: 1, Locs: []Loc{{Field: "", Pos: 1, Start: 0, End: 6}}},
+					{Term: B([]byte(fmt.Sprintf("t%d", d%13))), Freq: 1, Locs: []Loc{}}}}}
+		}
+		return b
+	}
+	probe := mk(40+r.Intn(300), true) // stored chunks well above 1 KiB, compressible
+	tiny := mk(1, false)
+	large := mk(200, true)
+	sc := Scenario{Name: fmt.Sprintf("proc_history-%d", i), NormKind: "code", Universe: []string{"_id", "body"}, Batches: []Batch{probe, tiny, large},
+		Tags: []string{"proc_history"}}
+	mode := []uint32{0, 1024, 3}[i%3]
+	sc.Ops = append(sc.Ops,
+		Op{Op: "build_fresh", Seg: 1, Batch: 0, Mode: mode, N: -1}, // the batch as the first thing a process does
+		Op{Op: "build_fresh", Seg: 2, Batch: 0, Mode: mode, N: 1},  // after a tiny build
+		Op{Op: "build_fresh", Seg: 3, Batch: 0, Mode: mode, N: 2},  // after a large build
+		Op{Op: "build_fresh", Seg: 4, Batch: 0, Mode: mode, N: 0},  // after itself
+		Op{Op: "build", Seg: 5, Batch: 0, Mode: mode},              // in this (long running) process
+		Op{Op: "build_fresh", Seg: 6, Batch: 1, Mode: mode, N: 2}, Op{Op: "build_fresh", Seg: 7, Batch: 1, Mode: mode, N: -1}, Op{Op: "build", Seg: 8, Batch: 1, Mode: mode})
+	return sc
+}
+
+// copy_boundary: merges on the stored-field byte-copy path (equal field lists, nothing deleted) whose 128-document
+// OUTPUT blocks end in the middle of a copied SOURCE block - inputs that are themselves merges, so that their
+// blocks do not line up with the output's; all bracketings compared (C02, C06, C17)
+func genCopyBoundary(r *rand.Rand, i int) Scenario {
+	sizes := [][3]int{{100, 28, 50}, {127, 1, 130}, {60, 70, 140}, {1, 127, 2}, {129, 127, 5}, {90, 90, 90}}[i%6]
+	mk := func(n, base int) Batch {
+		b := make(Batch, n)
+		for d := 0; d < n; d++ {
+			id := []byte(fmt.Sprintf("c%05d", base+d))
+			b[d] = Doc{{Name: "_id", Len: 1, Stored: true, Value: B(id), Terms: []TermOcc{{Term: B(id), Freq: 1, Locs: []Loc{}}}},
+				{Name: "v", Len: 1, Stored: true, Value: B([]byte(fmt.Sprintf("value-%d-%s", base+d, strings.Repeat("x", (base+d)%17)))), Terms: []TermOcc{{Term: B([]byte("t")), Freq: 1, Locs: []Loc{}}}}}
+		}
+		return b
+	}
+	a, b, c := mk(sizes[0], 0), mk(sizes[1], 1000), mk(sizes[2], 2000)
+	sc := Scenario{Name: fmt.Sprintf("copy_boundary-%d", i), NormKind: "code", Universe: []string{"_id", "v"}, Batches: []Batch{a, b, c}, Tags: []string{"copy_boundary"}}
+	nd := func(k int) []DropSpec {
+		d := make([]DropSpec, k)
+		for x := range d {
+			d[x] = []DropSpec{{Kind: "nil"}, {Kind: "set", Docs: []int{}}}[r.Intn(2)]
+		}
+		return d
+	}
+	sc.Ops = append(sc.Ops, Op{Op: "build", Seg: 1, Batch: 0, Mode: 0}, Op{Op: "build", Seg: 2, Batch: 1, Mode: 0}, Op{Op: "build", Seg: 3, Batch: 2, Mode: 0},
+		Op{Op: "merge", File: 10, In: []int{1, 2, 3}, Drops: nd(3), Mode: 0, Buf: 4096}, Op{Op: "load", File: 10, Seg: 10, Backing: "mem"},
+		Op{Op: "merge", File: 11, In: []int{2, 3}, Drops: nd(2), Mode: 0, Buf: 4096}, Op{Op: "load", File: 11, Seg: 11, Backing: []string{"mem", "file"}[i%2]},
+		Op{Op: "merge", File: 12, In: []int{1, 11}, Drops: nd(2), Mode: 0, Buf: 4096}, Op{Op: "load", File: 12, Seg: 12, Backing: "mem"},
+		Op{Op: "merge", File: 13, In: []int{1, 2}, Drops: nd(2), Mode: 0, Buf: 4096}, Op{Op: "load", File: 13, Seg: 13, Backing: "mem"},
+		Op{Op: "merge", File: 14, In: []int{13, 3}, Drops: nd(2), Mode: 0, Buf: 4096}, Op{Op: "load", File: 14, Seg: 14, Backing: "mem"})
+	total := sizes[0] + sizes[1] + sizes[2]
+	for _, seg := range []int{10, 12, 14} {
+		for d := 0; d < total+1; d++ {
+			if d < 3 || d > total-3 || (d%128 >= 125 || d%128 <= 2) || d%37 == 0 {
+				sc.Ops = append(sc.Ops, Op{Op: "stored", Seg: seg, N: d})
+			}
+		}
+	}
+	sc.Ops = append(sc.Ops, Op{Op: "same_obs", In: []int{10, 12, 14}})
 	return sc
 }
